@@ -218,6 +218,11 @@ func nativeReplay(eng *sym.Engine, h HarnessDef, replayFile string, v sym.Violat
 		return false, err.Error()
 	}
 	res := runNative(bin, replayFile, 120*time.Second)
+	if strings.Contains(res.Output, "\ngoroutine ") && (strings.Contains(res.Output, "panic: ") || strings.Contains(res.Output, "fatal error: ")) {
+		// the real process died (a panic outside any recover, a runtime fatal error): whatever the
+		// engine's label for this path was, the native run shows a crash of the server process
+		return true, ""
+	}
 	switch v.Kind {
 	case "assert":
 		for _, f := range res.Failed {
